@@ -100,14 +100,15 @@ def audit(path, root):
 
 TREES = ["none_missing", "some_missing", "unreadable_file", "invalid_utf8", "empty_source_dir", "missing_source_dir", "bad_config",
          "big_tree"]
-LOCKS = ["absent", "valid", "corrupt", "empty", "absent+stale_scratch", "valid+stale_scratch"]
+LOCKS = ["absent", "valid", "valid_behind", "corrupt", "empty", "absent+stale_scratch", "valid+stale_scratch"]
 # how check mode is asked for (drawn per point, not a product dimension): every spelling the command line accepts or
 # rejects - a rejected command line must not touch anything either
-ARGS = ["-c CFG --check", "--check -c CFG", "--config CFG --check", "-c CFG --check --check", "--check --config=CFG", "-cCFG --check"]
+ARGS = ["-c CFG --check", "--check -c CFG", "--config CFG --check", "-c CFG --check --check", "--check --config=CFG", "-cCFG --check",
+        "--check -c DIR", "-c DIR/ --check"]
 CACHE = [None, True, False]
 STRUCT = [False, True]
 ENDING = ["normal", "sigterm", "sigint"]
-TMPDIRS = ["exists", "missing", "missing_inside_project"]     # the environment is part of the configuration
+TMPDIRS = ["exists", "missing", "missing_inside_project", "holds_old_scratch_files"]     # the environment is part of the configuration
 
 
 def make_tree(box, tree, rnd):
@@ -151,6 +152,9 @@ def work(job):
         lockp = os.path.join(box.proj, "Breadlog.lock")
         if lock == "valid":
             open(lockp, "w").write(core.lock_text(50))
+        elif lock == "valid_behind":
+            # well-formed, but at or below references that are in the code (a lock restored from an old commit)
+            open(lockp, "w").write(core.lock_text(rnd.choice([1, 2, 9])))
         elif lock == "corrupt":
             open(lockp, "w").write("next_reference_id: {oops\n")
         elif lock == "empty":
@@ -163,7 +167,6 @@ def work(job):
         # cwd is a separate monitored directory
         cwd = os.path.join(box.root, "cwd")
         os.makedirs(cwd)
-        before = core.snapshot(box.root)
         rules = None
         if ending != "normal":
             # stop request raised synchronously at a seeded operation boundary
@@ -174,8 +177,18 @@ def work(job):
             tmpdir = os.path.join(box.root, "no", "such", "tmpdir")
         elif tmpmode == "missing_inside_project":
             tmpdir = os.path.join(box.proj, "target", "tmp")
+        elif tmpmode == "holds_old_scratch_files":
+            # left by killed runs of this tool days ago, next to other programs' files
+            import time as _t
+            for name, age in (("breadlog-0b0e3c5e-1f6a-4c59-9f0e-aaaaaaaaaaaa.tmp", 3 * 86400), ("breadlog-11111111-2222-3333-4444-555555555555.tmp", 7200),
+                              ("breadlog-fresh.tmp", 5), ("other-program.tmp", 9 * 86400), (".hidden-old", 40 * 86400)):
+                pth = os.path.join(box.tmp, name)
+                with open(pth, "w") as f:
+                    f.write("fn x() { info!(\"scratch\"); }\n")
+                os.utime(pth, (_t.time() - age, _t.time() - age))
+        before = core.snapshot(box.root)
         form = core.rng_for("c04args", seed, i).choice(ARGS)
-        argv = [a.replace("CFG", cfg) for a in form.split(" ")]
+        argv = [a.replace("CFG", cfg).replace("DIR", os.path.dirname(cfg)) for a in form.split(" ")]
         r = core.run_breadlog(built, box, cfg, check=True, cwd=cwd, strace=True, rules=rules, timeout=120, tmpdir=tmpdir,
                               argv_override=argv)
         after = core.snapshot(box.root)
@@ -254,8 +267,8 @@ def main(tier):
     ck.extra["product_size"] = len(product)
     ck.extra["points_run"] = len(points)
     ck.rule = ("configuration product tree{none missing, some missing, unreadable/special files, invalid UTF-8, empty / missing source "
-               "dir, bad config, 12-file tree} x lock{absent,valid,corrupt,empty, absent/valid + a stale Breadlog.lock.tmp} x use_cache{omitted,true,false} x structured x "
-               "ending{normal, SIGTERM, SIGINT at a seeded operation} x TMPDIR{exists, missing, missing inside the project}, command-line spelling of check mode cycled over 6 forms incl. a repeated --check (all %d points in both tiers, exhaustive; thorough x4 with fresh "
+               "dir, bad config, 12-file tree} x lock{absent,valid,valid but behind the code,corrupt,empty, absent/valid + a stale Breadlog.lock.tmp} x use_cache{omitted,true,false} x structured x "
+               "ending{normal, SIGTERM, SIGINT at a seeded operation} x TMPDIR{exists, missing, missing inside the project, holding old scratch files}, command-line spelling of check mode drawn from 8 forms incl. a repeated --check and a directory instead of the file (all %d points in both tiers, exhaustive; thorough x4 with fresh "
                "signal positions) + corpora; every --check process runs under strace -f -y; every successful kernel call "
                "that can mutate the filesystem is a violation, as is any difference (content, mode, size, mtime, inode, path set) "
                "between the before/after snapshots of project, TMPDIR, cwd and an outside directory; distinct_nontrivial = distinct points"
